@@ -453,6 +453,8 @@ def rule_r11(ctx, rid="C04.R11"):
     ctx.r.floor(rid, len(stores), 5, "completed = True stores in HTTPRequestParser.received")
     for n in stores:
         pth = g.path(g.entry, n, avoid=parses + empt + body, follow_exc=False)
+        if pth is not None and g.path(n, g.exit, avoid=empt, follow_exc=False) is None:
+            pth = None  # the empty mark follows on every way out: the caller sees both (it reads them after received() returned)
         if pth is None:
             ctx.r.ok(rid, "completed only after a parsed head, an empty mark, or in the body phase", f.loc(n.ast))
         else:
@@ -464,6 +466,8 @@ RULES = [rule_r1, rule_r2, rule_r3, rule_r4, rule_r5, rule_r6, rule_r7, rule_r8,
 from ..selftest import M, T, V  # noqa: E402
 
 selftest = [
+    M("empty-mark-dropped", "parser.py", "                if not header_plus:\n                    self.empty = True\n                    self.completed = True", "                if not header_plus:\n                    self.completed = True", "R11"),
+    T("empty-mark-after-completed", "parser.py", "                if not header_plus:\n                    self.empty = True\n                    self.completed = True", "                if not header_plus:\n                    self.completed = True\n                    self.empty = True"),
     M("dispatch-ge-1", "channel.py", "if len(self.requests) == 1:", "if len(self.requests) >= 1:", "R4"),
     M("append-outside-lock", "channel.py", "            self.current_outbuf_count += num_bytes\n            self.total_outbufs_len += num_bytes\n            self.sent_continue = True", "            self.current_outbuf_count += num_bytes\n        self.total_outbufs_len += num_bytes\n        with self.outbuf_lock:\n            self.sent_continue = True", "R1"),
     M("write_soon-unlocked", "channel.py", "            with self.outbuf_lock:\n                self._flush_outbufs_below_high_watermark()\n", "            if True:\n                self._flush_outbufs_below_high_watermark()\n", "R1"),
